@@ -44,6 +44,11 @@ func Shapes(thorough bool) []DfCase {
 		df(progen.DataflowParams{Wrap: 1, Map: "inner"}),                          // mapped call in a sub-pipeline
 	}
 	if thorough {
+		// a nest: outer call mapped over a run-time array, inner split stage
+		// mapped over a literal one (forks are stored in an order that differs
+		// from their ids)
+		nest := progen.KeyParams{Outer: "arr", OuterDyn: true, OuterSel: 2, Inner: "arr", InnerSel: 3, Chunks: 2}
+		out = append(out, DfCase{Family: "nest", Kp: &nest})
 		out = append(out,
 			df(progen.DataflowParams{Kind: "smap", Map: "top", Proj: "x"}),
 			df(progen.DataflowParams{Wrap: 2, Map: "top", Cons: "sums"}),
